@@ -27,7 +27,8 @@ META = {
     "compared before/after (identity). The parent process compares the per-hash-seed results with each other (term digest of V(p1) "
     "and the float results on fixed params). Supplementary concrete check at scale (not solver-based): the "
     "frame of a 640-agent batch B is compared between the histories [simulate(A); simulate(B)] and [simulate(B)] run in different processes.",
-    "bounds": "templates TA, TC, TE (stochastic), TK; T = 2; PYTHONHASHSEED in {0,1,2} (thorough: 0..7 and two random seeds); call "
+    "bounds": "in-place history (one dict object updated between two calls; solve and solve_and_simulate, 1 agent): TA, TB (thorough +TE, TC); "
+    "templates TA, TC, TE (stochastic), TK; T = 2; PYTHONHASHSEED in {0,1,2} (thorough: 0..7 and two random seeds); call "
     "sequences of length 4 on one function object",
     "outside": "hash seeds and processes other than the enumerated ones; longer call histories; other threads",
     "assumptions": ["as C01/C02"],
